@@ -61,6 +61,13 @@ pub fn run(ctx: &Ctx) -> CheckResult {
             });
         }
     }
+    // deep and narrow: three levels, periods 3..8 (balanced windows - the mean equals the newest value at
+    // one particular ring phase - followed by the settled inputs that expose a wrong running sum)
+    for n in 3..=8usize {
+        for cfg in subjects(n, false) {
+            spaces.push(Space { cfg, alphabet: s_ops(&S_NARROW), depth: if th { 12 } else { 10 }, label: "S_narrow" });
+        }
+    }
     let o = run_spaces(ctx, PROP, &spaces);
     let seq_nodes = o.stats.states;
     res.absorb(o);
@@ -68,6 +75,7 @@ pub fn run(ctx: &Ctx) -> CheckResult {
     // (c) explicit-state fixpoints over the exact alphabet
     let mut bfs_rows = vec![];
     let mut bfs_states: std::collections::HashMap<String, u64> = std::collections::HashMap::new();
+    let mut bfs_closed: std::collections::HashSet<String> = std::collections::HashSet::new();
     if !res.out.failed() {
         let mut jobs = vec![];
         for n in 1..=d_bfs_n {
@@ -91,6 +99,9 @@ pub fn run(ctx: &Ctx) -> CheckResult {
             // closed form for content+cursor machines: sum_{k<n} a^k + n a^n
             let closed: u64 = (0..n).map(|k| a.pow(k as u32)).sum::<u64>() + n * a.pow(n as u32);
             bfs_states.insert(cfg.descr(), states);
+            if fix {
+                bfs_closed.insert(cfg.descr());
+            }
             bfs_rows.push(json!({"subject": cfg.descr(), "states": states, "transitions": trans, "depth": depth, "fixpoint": fix, "concrete_states": concrete, "closed_form_content_cursor": closed}));
             if matches!(cfg.kind, Kind::Sma | Kind::Wma | Kind::Mad) && fix && !out.failed() {
                 res.require(concrete == closed, &format!("{}: BFS reached {} concrete states, closed form says {} (de-duplication unsound?)", cfg.descr(), concrete, closed));
@@ -110,8 +121,13 @@ pub fn run(ctx: &Ctx) -> CheckResult {
         for n in 1..=nmax {
             for k in [Kind::Sma, Kind::Wma, Kind::Mad, Kind::Min, Kind::Max] {
                 let cfg = Cfg::p1(k, n);
-                let x = crate::xcheck::run_indicator(&cfg, &alphabet, n, ctx.threads);
                 let mine = bfs_states.get(&cfg.descr()).copied().unwrap_or(0);
+                if !bfs_closed.contains(&cfg.descr()) {
+                    // seqmc's graph did not close (already recorded as non-exhaustive): nothing finite to agree on
+                    xrows.push(json!({"subject": cfg.descr(), "skipped": "seqmc BFS did not reach a fixpoint", "seqmc_states": mine}));
+                    continue;
+                }
+                let x = crate::xcheck::run_indicator(&cfg, &alphabet, n, ctx.threads, 2 * mine as usize + 1000);
                 xrows.push(json!({"subject": cfg.descr(), "stateright_unique_states": x.unique_states, "seqmc_states": mine, "discoveries": x.discoveries}));
                 res.require(x.unique_states as u64 == mine, &format!("{}: stateright found {} unique states, seqmc BFS {}", cfg.descr(), x.unique_states, mine));
                 res.require(x.discoveries == 0, &format!("{}: stateright reports a discovery although seqmc found no violation", cfg.descr()));
@@ -226,6 +242,72 @@ pub fn run(ctx: &Ctx) -> CheckResult {
         });
         res.absorb(merge_jobs(outs));
     }
+
+    // MIN / MAX at medium periods with up to three tie-producing deviations at every set of positions
+    // (props/devfam.rs); the oracle is the plain scan of the last n values, exact
+    let mut devfam_seqs = 0u64;
+    if !res.out.failed() {
+        use super::devfam::*;
+        let plan: Vec<(usize, usize, &[Dev])> = if th { vec![(9, 3, &DEVS_ALL[..]), (10, 3, &DEVS_ABS[..]), (14, 3, &DEVS_ABS[..]), (17, 3, &DEVS_ALL[..]), (20, 3, &DEVS_ABS[..]), (33, 2, &DEVS_ALL[..])] } else { vec![(9, 3, &DEVS_ABS[..]), (9, 2, &DEVS_ALL[..]), (17, 3, &DEVS_ABS[..]), (17, 2, &DEVS_ALL[..])] };
+        let mut jobs: Vec<(Cfg, Base, usize, usize, &[Dev], bool)> = vec![];
+        for &(n, k, devs) in &plan {
+            for b in BASES {
+                for kind in [Kind::Min, Kind::Max] {
+                    jobs.push((Cfg::p1(kind, n), b, n, k, devs, false));
+                    jobs.push((Cfg::p1(kind, n), b, n, k, devs, true));
+                }
+            }
+        }
+        let outs = par_run(ctx, &jobs, |_, (cfg, b, n, k, devs, bars)| {
+            let mut out = JobOut::default();
+            let len = 3 * n + 3;
+            let is_min = cfg.kind == Kind::Min;
+            for first in 0..len {
+                for kk in 1..=*k {
+                    let go = for_each_from(first, len, kk, devs, &mut |set| {
+                        let v = build(*b, *n, len, set);
+                        out.stats.traces += 1;
+                        out.stats.transitions += len as u64;
+                        let r = std::panic::catch_unwind(std::panic::AssertUnwindSafe(|| {
+                            let mut s = crate::subjects::make(cfg);
+                            v.iter().map(|x| s.apply(&if *bars { Op::B(bar_of(*x)) } else { Op::S(*x) }).v[0]).collect::<Vec<f64>>()
+                        }));
+                        let got = match r {
+                            Ok(g) => g,
+                            Err(_) => {
+                                out.fail(Violation::new(PROP, cfg, &to_ops(&v, *bars), "panic").obs("panic".into()).exp("the window extreme".into()));
+                                return false;
+                            }
+                        };
+                        for t in first..len {
+                            let w = &v[(t + 1).saturating_sub(*n)..=t];
+                            let e = if is_min { w.iter().cloned().fold(f64::INFINITY, f64::min) } else { w.iter().cloned().fold(f64::NEG_INFINITY, f64::max) };
+                            let e = if *bars { if is_min { e - 0.125 } else { e + 0.125 } } else { e };
+                            out.stats.states += 1;
+                            out.stats.evaluations += 1;
+                            if t >= *n {
+                                out.stats.nontrivial += 1;
+                            }
+                            if got[t] != e {
+                                let ops = to_ops(&v, *bars);
+                                out.fail(Violation::new(PROP, cfg, &ops[..=t], "value-mismatch").obs(format!("[{}]", f2s(got[t]))).exp(format!("[{}]", f2s(e))).det(format!("window extreme must be exact; {:?} base with deviations {:?}", b, set)));
+                                return false;
+                            }
+                        }
+                        true
+                    });
+                    if !go {
+                        return out;
+                    }
+                }
+            }
+            out
+        });
+        let m = merge_jobs(outs);
+        devfam_seqs = m.stats.traces;
+        res.absorb(m);
+    }
+    res.extra.insert("minmax_multi_deviation_sequences".into(), json!(devfam_seqs));
 
     // Default::default() instances against the reference for the parameters they report
     if !res.out.failed() {
